@@ -163,6 +163,8 @@ def run(ctx):
               'a chunk is skipped only when valid != 0' if not sk.violations else sk.violations[0].msg, mr.file,
               sk.violations[0].node.line if sk.violations else mr.line,
               path=sk.violations[0].path if sk.violations else None, config=config)
+        from ..rules import extra
+        extra.check_range_purity(ck, prog, config, 'C10-a')
         # ---- b
         ra = prog.need_func('range_add')
         subst = unique_defs(ra)
